@@ -260,6 +260,55 @@ def run_replay(o, cfg, repo, work, seed):
         kani.cleanup(scratch)
 
 
+def _kani_env():
+    env = dict(os.environ)
+    env["CARGO_NET_OFFLINE"] = "true"
+    env.pop("RUSTUP_TOOLCHAIN", None)
+    env.pop("RUSTFLAGS", None)
+    return env
+
+
+def kani_counterexample(o, cfg, repo, work):
+    """Failed Kani obligation: re-run the harness with concrete playback, capture the generated unit test (the verifier's
+    counterexample as concrete bytes) and run it natively against the real code (`cargo kani playback`)."""
+    files = [os.path.join(unit_dir(o["unit"]), f) for f in cfg["harness_files"]]
+    try:
+        scratch, _ = kani.prepare(repo, files, for_tests=True)
+    except Exception as e:
+        return {"ran": False, "found": False, "output": "playback setup failed: %s" % e}
+    try:
+        h = o["harness"]
+        cmd = ["cargo", "kani", "-p", cfg["crate"], "--harness", h, "-Z", "concrete-playback", "--concrete-playback=inplace"] + list(cfg.get("flags", []))
+        try:
+            p = subprocess.run(cmd, cwd=scratch, env=_kani_env(), capture_output=True, text=True, timeout=cfg.get("timeout", 1500))
+        except subprocess.TimeoutExpired:
+            return {"ran": False, "found": False, "output": "concrete playback generation timed out"}
+        tests = []
+        for hf in files:
+            m = re.match(r"\s*//@@\s+append\s+(\S+)", open(hf).read())
+            src = open(os.path.join(scratch, m.group(1))).read()
+            for tm in re.finditer(r"(?s)#\[test\]\s*fn (kani_concrete_playback_%s_\d+)\(\)\s*\{.*?kani::concrete_playback_run\([^;]*;\s*\}" % re.escape(h), src):
+                tests.append({"name": tm.group(1), "file": m.group(1), "source": tm.group(0)})
+        if not tests:
+            return {"ran": False, "found": False, "output": "Kani produced no concrete playback test\n" + (p.stdout + p.stderr)[-1500:]}
+        found, outs = False, []
+        for t in tests:
+            cmd2 = ["cargo", "kani", "playback", "-Z", "concrete-playback", "-p", cfg["crate"], "--", "--nocapture", t["name"]]
+            try:
+                q = subprocess.run(cmd2, cwd=scratch, env=_kani_env(), capture_output=True, text=True, timeout=2400)
+                out = q.stdout + q.stderr
+            except subprocess.TimeoutExpired:
+                out = "playback timed out"
+            failed = "test result: FAILED" in out
+            t["native_run"] = "FAILED (the real code violates the harness assertion on these inputs)" if failed else "passed / not run"
+            t["output_tail"] = out[-1500:]
+            found = found or failed
+        return {"ran": True, "found": found, "kani_playback_tests": tests, "crate": cfg["crate"],
+                "harness_files": cfg["harness_files"], "unit": o["unit"]}
+    finally:
+        kani.cleanup(scratch)
+
+
 # ------------------------------------------------------------------ known findings
 
 def load_known():
@@ -347,7 +396,14 @@ def main(argv=None):
     for o, k in known_hits:
         lines.append("KNOWN-FINDING: property=%s %s (%s)" % (a.prop, k["what"], o["id"]))
     for o in violations:
-        rep = run_replay(o, cfgs[o["unit"]], a.repo, work, seed)
+        if o["engine"] == "kani":
+            rep = kani_counterexample(o, cfgs[o["unit"]], a.repo, work)
+            if not rep.get("found") and cfgs[o["unit"]].get("replay"):
+                rep2 = run_replay(o, cfgs[o["unit"]], a.repo, work, seed)
+                if rep2.get("found"):
+                    rep = rep2
+        else:
+            rep = run_replay(o, cfgs[o["unit"]], a.repo, work, seed)
         rp = os.path.join(ROOT, "replays", "%s-%s.json" % (a.prop, re.sub(r"[^A-Za-z0-9_.-]", "_", o["id"])))
         with open(rp, "w") as f:
             json.dump({"property": a.prop, "failed_obligation": o["id"], "engine": o["engine"], "failed_kinds": o.get("failed_kinds"),
@@ -461,6 +517,16 @@ def replay_file(path, repo, seed):
     cfg = load_json(os.path.join(unit_dir(unit), "unit.json"))
     work = os.path.join(ROOT, ".work", "replay")
     os.makedirs(work, exist_ok=True)
+    if d.get("engine") == "kani":
+        rep = kani_counterexample({"unit": unit, "harness": d["failed_obligation"].split("/", 1)[1]}, cfg, repo, work)
+        for t in rep.get("kani_playback_tests", []):
+            print(t["name"], "->", t.get("native_run"))
+            print(t.get("output_tail", "")[-800:])
+        if rep.get("found"):
+            print("VIOLATION property=%s replay=%s" % (d["property"], path))
+            return 1
+        print("replay did not reproduce a failing input on this tree")
+        return 0
     rep = run_replay({"id": d["failed_obligation"], "unit": unit}, cfg, repo, work, d.get("seed", seed))
     print(rep.get("output", "")[-3000:])
     if rep.get("found"):
